@@ -165,7 +165,11 @@ def _compile_goto(q, workdir, witness, tag):
     srcs += unit_paths(q.units)
     tmp = gb + ".tmp%d" % os.getpid()
     cmd = ["goto-cc", "-o", tmp] + cc_common(q, witness) + srcs
-    rc, out, wall, st = run_cmd(cmd, 300)
+    # goto-cc drops intermediate objects named after the sources into its cwd: give every
+    # compile its own directory or concurrent compiles of the same sources collide
+    cdir = tempfile.mkdtemp(prefix="cc_", dir=workdir)
+    rc, out, wall, st = run_cmd(cmd, 300, cwd=cdir)
+    shutil.rmtree(cdir, ignore_errors=True)
     if rc != 0 or not os.path.exists(tmp):
         return None, "goto-cc failed (rc=%s):\n%s\n%s" % (rc, " ".join(cmd), out), wall
     os.replace(tmp, gb)
@@ -287,7 +291,11 @@ def _compile_goto(q, workdir, witness, tag):
     srcs += unit_paths(q.units)
     tmp = gb + ".tmp%d" % os.getpid()
     cmd = ["goto-cc", "-o", tmp] + cc_common(q, witness) + srcs
-    rc, out, wall, st = run_cmd(cmd, 300)
+    # goto-cc drops intermediate objects named after the sources into its cwd: give every
+    # compile its own directory or concurrent compiles of the same sources collide
+    cdir = tempfile.mkdtemp(prefix="cc_", dir=workdir)
+    rc, out, wall, st = run_cmd(cmd, 300, cwd=cdir)
+    shutil.rmtree(cdir, ignore_errors=True)
     if rc != 0 or not os.path.exists(tmp):
         return None, "goto-cc failed (rc=%s):\n%s\n%s" % (rc, " ".join(cmd), out), wall
     os.replace(tmp, gb)
@@ -384,7 +392,9 @@ def _compile_native(q, workdir, tag):
     srcs += unit_paths(units)
     cmd = ["gcc", "-g", "-O0", "-w", "-fsanitize=address,undefined", "-fno-sanitize-recover=undefined",
            "-DVERIF_NATIVE", "-Wl,--unresolved-symbols=ignore-all", "-no-pie", "-o", exe] + cc_common(q, False) + srcs + q.native_libs
-    rc, out, wall, st = run_cmd(cmd, 300)
+    cdir = tempfile.mkdtemp(prefix="ncc_", dir=workdir)
+    rc, out, wall, st = run_cmd(cmd, 300, cwd=cdir)
+    shutil.rmtree(cdir, ignore_errors=True)
     if rc != 0:
         return None, "native compile failed:\n%s\n%s" % (" ".join(cmd), out)
     return exe, out
@@ -431,7 +441,10 @@ def run_query(q, workdir, replays_dir, prop_id):
         res["wall_s"] = time.time() - t0
         return res
     cmd = cbmc_cmd(q, gb, False, True)
-    rc, out, wall, st = run_cmd(cmd, q.timeout, q.mem_gb)
+    rc, out, wall, st = run_cmd(["/usr/bin/time", "-f", "MAXRSS_KB %M"] + cmd, q.timeout, q.mem_gb)
+    m_rss = re.search(r"MAXRSS_KB (\d+)", out)
+    if m_rss:
+        res["rss_mb"] = int(m_rss.group(1)) // 1024
     res["cmd"] = " ".join(cmd)
     if st != "ok":
         res["verdict"] = "inconclusive"
@@ -548,7 +561,9 @@ def run_check(prop_id, tier, queries, meta, extra_evidence=None, pre_results=Non
     workdir = tempfile.mkdtemp(prefix="w%d_" % os.getpid(), dir=WORKROOT)
     replays_dir = os.path.join(VERIF, "replays", prop_id)
     results = list(pre_results or [])
-    jobs = meta.get("jobs", NCPU)
+    # memory-aware parallelism: never schedule more than ~56 GB of per-query caps at once
+    maxmem = max([q.mem_gb for q in queries] + [1])
+    jobs = max(1, min(meta.get("jobs", NCPU), int(56 // meta.get("expected_gb", max(1.0, maxmem / 3.0)))))
     try:
         # pre-compile distinct goto binaries serially-ish (cheap) to avoid races
         with cf.ThreadPoolExecutor(max_workers=jobs) as ex:
@@ -564,7 +579,7 @@ def run_check(prop_id, tier, queries, meta, extra_evidence=None, pre_results=Non
                 r["nontrivial"] = q.nontrivial
                 results.append(r)
                 if os.environ.get("VERIF_VERBOSE"):
-                    print("  [%s] %s %.1fs witness=%s %s" % (r["verdict"], r["name"], r["wall_s"], r.get("witness"),
+                    print("  [%s] %s %.1fs rss=%sMB witness=%s %s" % (r["verdict"], r["name"], r["wall_s"], r.get("rss_mb"), r.get("witness"),
                           "; ".join(n[:200] for n in r.get("notes", []))), flush=True)
     finally:
         shutil.rmtree(workdir, ignore_errors=True)
@@ -657,7 +672,8 @@ def run_check(prop_id, tier, queries, meta, extra_evidence=None, pre_results=Non
             "explanation": meta.get("explanation", ""),
             "known_findings_seen": sorted(seen),
             "queries": [{"q": r["name"], "v": r["verdict"], "w": r.get("witness"), "t": round(r["wall_s"], 1),
-                         "vccs": r["info"].get("vccs"), "steps": r["info"].get("symex_steps")} for r in results],
+                         "vccs": r["info"].get("vccs"), "steps": r["info"].get("symex_steps"), "rss_mb": r.get("rss_mb")} for r in results],
+            "peak_rss_mb": max([r.get("rss_mb") or 0 for r in results] + [0]),
         },
         "assumptions": meta.get("assumptions", []),
         "wall_s": round(wall, 2),
